@@ -56,7 +56,8 @@ def precheck (p : Pool) (r : RawOp) : Bool :=
   | 'm' => alive o && alive s && o != s
   | 'R' | 'a' | 'e' | 'S' | 'T' | 'E' => alive o
   | 'U' => o == 8 && (p.objs 8).isNone
-  | 'b' | 'B' => alive o && (p.objs 8).isSome
+  | 'b' | 'B' | 'h' | 'H' => alive o && (p.objs 8).isSome
+  | 'G' | 'g' => dead o && (p.objs 8).isSome
   | 'K' =>
     let n := r.str 2
     (if o == 8 then (p.objs 8).isNone else dead o) && alive s &&
@@ -146,6 +147,10 @@ def toSOp (p : Pool) (r : RawOp) (cur : ObsStep) : Option SOp :=
   | 'U' => some (.bufCtor (parseUnits 8 r.tail))
   | 'b' => some (.setBufMove o (modeOf (r.str 1)))
   | 'B' => some (.setBufCopy o (modeOf (r.str 1)))
+  | 'h' => some (.setBufMove o .checkValidity)
+  | 'H' => some (.setBufCopy o .checkValidity)
+  | 'G' => some (.ctorBufMove o (modeOf (r.str 1)))
+  | 'g' => some (.ctorBufCopy o (modeOf (r.str 1)))
   | 'K' =>
     if cur.exc == "" then some (.derive [(o, observed o)])
     else (excOfName cur.exc).map .deriveThrow
@@ -242,7 +247,7 @@ def targetsOfRaw (r : RawOp) : List Nat :=
   let s := r.num 1
   match r.c with
   | 'M' | 'm' => [o, s]
-  | 'b' => [o, 8]
+  | 'b' | 'h' | 'G' => [o, 8]
   | 'U' => [8]
   | 'K' => [o]
   | 'V' => vDests r
@@ -264,8 +269,10 @@ def expectValue (vals : Nat → Option Value.V) (r : RawOp) : List (Nat × Value
   | 'p' => [(o, Value.append (get o) (Value.mapKnown upToNul (get s)))]
   | 'S' => if modeOf (r.str 1) == .substituteInvalid then [(o, .unspecified)] else [(o, .known (parseUnits 8 r.tail))]
   | 'U' => [(8, .known (parseUnits 8 r.tail))]
-  | 'b' => let m := modeOf (r.str 1); if m == .substituteInvalid then [(o, .unspecified)] else [(o, get 8), (8, .unspecified)]
-  | 'B' => let m := modeOf (r.str 1); if m == .substituteInvalid then [(o, .unspecified)] else [(o, get 8)]
+  | 'b' | 'G' => let m := modeOf (r.str 1); if m == .substituteInvalid then [(o, .unspecified)] else [(o, get 8), (8, .unspecified)]
+  | 'B' | 'g' => let m := modeOf (r.str 1); if m == .substituteInvalid then [(o, .unspecified)] else [(o, get 8)]
+  | 'h' => [(o, get 8), (8, .unspecified)]
+  | 'H' => [(o, get 8)]
   | _ => (targetsOfRaw r).map fun t => (t, .unspecified)
 
 structure RunState where
